@@ -352,5 +352,9 @@ def run(ctx: Ctx) -> None:
     ctx.attempt(rule_r4, ctx)
     ctx.attempt(rule_r6, ctx)
     ctx.attempt(rule_r5, ctx, None)
+    from . import c08
+
+    ctx.rule("C03.R7", "values referred to from expressions are those of the text read so far *in the current section*: `_offset_` and constants by name, asked of one builder at every point of a growing two-section (service) definition (shared with C08.R3)", min_instances=1)
+    ctx.attempt(c08.rule_identifiers, ctx, "C03.R7")
     ctx.assume("parsimonious visits children before their parent, left to right (NodeVisitor.visit as written in nodes.py)")
     ctx.undecided("equality of the re-parsed canonical rendering (a round trip over values)")
